@@ -70,6 +70,9 @@ def run(ck):
             if len(seqs) < 2:
                 continue
             names = gen.names_for(rng, len(seqs), rng.choice(['plain', 'punct', 'prefix']))
+            if k % 5 == 2:      # FASTA header lines with a description: unique names that share their first token
+                genus = rng.choice(['Homo', 'sp|P1', 'seq'])
+                names = ['%s %s' % (genus if rng.chance(3, 4) else 'Pan', w) for w in ['sapiens', 'erectus', 'habilis', 'ergaster', 'x y', 'x  y', 'z', 'sapiens 2', 'a|b', '-'][:len(seqs)]]
             rows_r = random_alignment(rng, seqs, rng.range(1, 6))
             mode = k % 4
             if mode == 0:
